@@ -680,6 +680,7 @@ func c11Context(c *core.Ctx, root *packages.Package) {
 		}
 		return ""
 	}
+	extra := map[string]bool{}
 	var eval func(e ast.Expr, a map[string]bool) (bool, bool)
 	eval = func(e ast.Expr, a map[string]bool) (bool, bool) {
 		e = ast.Unparen(e)
@@ -702,11 +703,27 @@ func c11Context(c *core.Ctx, root *packages.Package) {
 		if k := atomOf(e); k != "" {
 			return a[k], true
 		}
+		// any other boolean operand is a fact of its own (n.Wants() == BatchEdge is not n.Provides() == BatchEdge): it is
+		// enumerated too, so an expression whose value depends on it differs from the reference for some assignment
+		if b, ok := root.TypesInfo.TypeOf(e).Underlying().(*types.Basic); ok && b.Info()&types.IsBoolean != 0 {
+			k := "?" + types.ExprString(e)
+			if _, seen := a[k]; !seen {
+				extra[k] = true
+			}
+			return a[k], true
+		}
 		return false, false
 	}
 	bad := ""
 	names := []string{"pt", "st", "sel", "batch"}
-	for m := 0; m < 16 && bad == ""; m++ {
+	// first pass to collect the extra facts
+	eval(ptx, map[string]bool{})
+	for _, k := range an.SortedKeys(extra) {
+		if len(names) < 8 {
+			names = append(names, k)
+		}
+	}
+	for m := 0; m < 1<<len(names) && bad == ""; m++ {
 		a := map[string]bool{}
 		for i, k := range names {
 			a[k] = m&(1<<i) != 0
@@ -719,6 +736,9 @@ func c11Context(c *core.Ctx, root *packages.Package) {
 		ref := (a["pt"] && (a["sel"] || a["batch"])) || a["st"]
 		if got != ref {
 			bad = fmt.Sprintf("usePointTimes=%v, stream transformation=%v, simple selector=%v, provides batch=%v: is %v, must be %v", a["pt"], a["st"], a["sel"], a["batch"], got, ref)
+			for _, k := range an.SortedKeys(extra) {
+				bad += fmt.Sprintf(" (with %s = %v, which the rule does not depend on)", k[1:], a[k])
+			}
 		}
 	}
 	c.Check(bad == "", "C11.context", "InfluxQLNode.newGroup#pointTimes", ptx.Pos(), "the reduce context's pointTimes differs from the documented rule ((usePointTimes ∧ the function selects points) ∨ stream transformation) at %s — with usePointTimes a pure aggregation would take the time of its seed point (count and sum start from a point at time 0: every window is stamped 1970-01-01T00:00:00Z)", bad)
